@@ -31,6 +31,8 @@ def enumerate_specs(tier):
             ci = len(specs)
             if ci % 4 == 0 and len(ins[0].shape) >= 2:     # first operand as a non-contiguous view
                 specs.append({"op": name, "args": args, "variant": {"req": full, "layout": "T" if ci % 8 == 0 else "S"}})
+            if od.smooth_at_zero(args):              # an input entry that is exactly 0
+                specs.append({"op": name, "args": args, "variant": {"req": full, "zero_first": True}})
             if tier != "quick" or ci % 3 == 0:      # the same graph differentiated twice
                 specs.append({"op": name, "args": args, "variant": {"req": full, "twice": True}})
     return specs
